@@ -21,6 +21,9 @@ func init() {
 		checkConnectives(r, prog, a, "c03")
 		checkASTIntegrity(r, prog, a, "c03")
 		checkTreeHandedOver(r, prog, a, "c03")
+		r.importing = "C18"
+		checkOptionConstructors(r, prog, "c18") // no state is carried from one operand's evaluation to the next through the options
+		r.importing = ""
 		if g := loadGrammars(r, prog); g != nil {
 			r.importing = "C15"
 			checkBinaryActions(r, NewGA(prog, g.Tab), "c15") // the node evaluated has the two operands that were written
